@@ -387,6 +387,12 @@ def generate(c):
     pexps = sorted(set([0, 1, 1023, 2046, 2047] + list(range(1023 - 70, 1023 + 70, 3)) + [1023 + 61, 1023 + 62, 1023 + 63, 1023 + 64, 1023 - 64, 1023 - 65]))
     for b in float_patterns(rng, pexps, 2):
         cases.append(mk(61, b))
+    if os.environ.get("VERIF_C32_LIGHT"):
+        # reduced run for mutation tests on an overloaded machine: the corpus and every 7th generated case
+        nc = dist["corpus"]
+        cases = cases[:nc] + cases[nc::7]   # 7: coprime with the periods of the generator loops
+        n_ntp = sum(1 for x in cases if x["op"] not in PTP_OPS)
+        dist["light"] = True
     dist["ntp_cases"] = n_ntp
     dist["ptp_cases"] = len(cases) - n_ntp
     per_op = {}
